@@ -497,6 +497,20 @@ def build_sampler(info):
                 out = common.exc_name(e)
         case.req = mkreq(rec.encoded())
         state["draws"] = len(rec.draws)
+        # input class for the evidence: draw source, branch taken
+        inj = "seed" if mode == "seed" else "inj-" + mode
+        if which == "glrm":
+            legal = a[0] >= 1 and a[1] >= 1 and 0 <= a[2] <= a[0] * a[1]
+            br = "refused" if not legal else ("dense" if a[2] > a[0] * a[1] // 3 else
+                                              ("sparse-retry" if len(rec.draws) > 2 * a[2] else "sparse"))
+            case.cls = "glrm:{}:{}".format(br, inj)
+        elif which == "regular":
+            n = a[0] * a[2]
+            br = "refused" if "exc" in state and rb.calls <= 1 else (
+                "restarts" if rb.calls > 1 else ("retries" if len(rec.draws) > 2 * n else "first-try"))
+            case.cls = "regular:{}:{}".format(br, inj)
+        else:
+            case.cls = "{}:{}".format(which, inj)
         return out
 
     def oracle():
@@ -634,6 +648,8 @@ def build_mod(info):
                 state["exc"] = e
                 out = common.exc_name(e)
         case.req = mkreq(rec.encoded())
+        fallback = any(d[0] == 1 for d in rec.draws) and which != "split"
+        case.cls = "{}:{}{}".format(which, "seed" if mode == "seed" else "inj-" + mode, ":dense-fallback" if fallback else "")
         return out
 
     def oracle():
@@ -1251,7 +1267,7 @@ def cases(ctx):
                     infos.append(("sampler", dict(which="regular", args=[L, R, d], mode=rng.choice(MODES), rseed=rs())))
             for p in (0, 1, 0.5, -0.25, 1.5, 0.1):
                 infos.append(("sampler", dict(which="glrp", args=[L, R, p], mode=rng.choice(MODES), rseed=rs())))
-    big = 500 if quick else 6000
+    big = 500 if quick else 20000
     for _ in range(big):
         L, R = rng.randint(1, 8), rng.randint(1, 8)
         which = rng.choice(["glrm", "glrd", "regular", "regular"])
@@ -1265,7 +1281,7 @@ def cases(ctx):
         infos.append(("sampler", dict(which=which, args=a, mode=rng.choice(MODES), rseed=rs())))
 
     # ---- modifications
-    nmod = 800 if quick else 10000
+    nmod = 800 if quick else 30000
     for _ in range(nmod):
         which = rng.choice(["addedges_s", "addedges_b", "split"])
         dens = rng.choice([0, 0.2, 0.5, 0.8, 1])
@@ -1337,7 +1353,7 @@ def cases(ctx):
         infos.append(("cli", dict(gtype=gtype, spec=toks, mode=rng.choice(MODES), rseed=rs())))
 
     # options
-    nopt = 900 if quick else 12000
+    nopt = 900 if quick else 40000
     simple_bases = [["complete", "4"], ["empty", "5"], ["gnm", "6", "7"], ["gnp", "5", "0.5"], ["grid", "2", "3"],
                     ["gnd", "6", "3"], ["torus", "3", "3"], ["gnp", "2", "0.7", "3"], ["complete", "2", "3"], ["empty", "1"]]
     bip_bases = [["complete", "2", "3"], ["empty", "3", "3"], ["glrm", "3", "4", "3"], ["glrm", "3", "3", "5"],
